@@ -23,12 +23,13 @@ type parserFlow struct {
 	errFuncs    map[*ssa.Function]bool // always record an error (or return immediately because one is recorded)
 	consumer    map[*ssa.Function]bool // helper every return of which is dominated by a consumption (true entries are final; false marks in-progress)
 	consumePred map[*ssa.Function]int  // function -> index of the bool result that is true only after a consumption
+	errPred     map[*ssa.Function]int  // function -> index of the bool result that is true only after an error was recorded
 	entryGuard  map[*ssa.Function]int  // function -> index of the bool result that is false when p.err != nil at entry
 }
 
 func newParserFlow(m *parserModel) *parserFlow {
 	f := &parserFlow{m: m, p: m.p, calleesOf: map[ssa.CallInstruction][]*ssa.Function{}, mayConsume: map[*ssa.Function]bool{},
-		errFuncs: map[*ssa.Function]bool{}, consumePred: map[*ssa.Function]int{}, consumer: map[*ssa.Function]bool{}, entryGuard: map[*ssa.Function]int{}}
+		errFuncs: map[*ssa.Function]bool{}, consumePred: map[*ssa.Function]int{}, errPred: map[*ssa.Function]int{}, consumer: map[*ssa.Function]bool{}, entryGuard: map[*ssa.Function]int{}}
 	f.resolveCalls()
 	f.computeMayConsume()
 	f.computeErrFuncs()
@@ -445,6 +446,66 @@ func (f *parserFlow) computePreds() {
 			}
 		}
 	}
+	// error predicates: every return whose bool result may be true is dominated by a store to the sticky error or by a
+	// call of a function that records one on every path (`if !p.reportLexerError(tok) { p.error(...) }`)
+	for _, fn := range f.m.fns {
+		res := fn.Signature.Results()
+		if res.Len() != 1 || len(fn.Blocks) == 0 {
+			continue
+		}
+		if b, ok := res.At(0).Type().Underlying().(*types.Basic); !ok || b.Kind() != types.Bool {
+			continue
+		}
+		if _, isC := f.consumePred[fn]; isC {
+			continue
+		}
+		var recs []ssa.Instruction
+		allInstrs(fn, func(in ssa.Instruction) {
+			switch x := in.(type) {
+			case *ssa.Store:
+				if f.m.fieldAddr(x.Addr, "err") && !isNilConst(x.Val) {
+					recs = append(recs, in)
+				}
+			case ssa.CallInstruction:
+				if g := x.Common().StaticCallee(); g != nil && f.errFuncs[g] {
+					recs = append(recs, in)
+				}
+			}
+		})
+		if len(recs) == 0 {
+			continue
+		}
+		ok, sawTrue := true, false
+		for _, ret := range returnsOf(fn) {
+			if cst, isC := ret.Results[0].(*ssa.Const); isC && cst.Value != nil && cst.Value.String() == "false" {
+				continue
+			}
+			sawTrue = true
+			dom := false
+			for _, rc := range recs {
+				if dominatesInstr(rc, ret) {
+					dom = true
+				}
+			}
+			if !dom {
+				ok = false
+			}
+		}
+		if ok && sawTrue {
+			f.errPred[fn] = 0
+		}
+	}
+}
+
+// isErrPredResult: v is the bool result of a call to an error predicate.
+func (f *parserFlow) isErrPredResult(v ssa.Value) bool {
+	if call, ok := unspill(v).(*ssa.Call); ok {
+		if g := call.Common().StaticCallee(); g != nil {
+			_, is := f.errPred[g]
+			return is
+		}
+	}
+	return false
 }
 
 // dominatedByConsumption: a call to NEXT dominates in, or in lies under the true edge of a consuming predicate.
